@@ -85,7 +85,7 @@ def formula_of(e: ast.AST):
     if isinstance(e, ast.Call) and isinstance(e.func, ast.Name) and e.func.id == 'isinstance' \
             and len(e.args) == 2 and not e.keywords and isinstance(e.args[0], ast.Constant) \
             and e.args[0].value is None and 'NoneType' not in src(e.args[1]) and \
-            src(e.args[1]) != 'object':
+            'type(None)' not in src(e.args[1]) and src(e.args[1]) != 'object':
         return FALSE        # a path on which an Optional lookup answered None
     if isinstance(e, ast.Compare) and len(e.ops) > 1:
         # chained comparison a < b < c  ==  a < b and b < c
